@@ -95,7 +95,7 @@ def scan_assumptions(gen_text, linemap):
     return found
 
 
-def attribute(fail, linemap, repo):
+def attribute(fail, linemap, repo, gen_lines=None):
     """Attach unit function key + source location to a failure from verus_run."""
     def loc(span):
         if not span:
@@ -105,6 +105,15 @@ def attribute(fail, linemap, repo):
             origin, oline, tag = linemap[i]
         else:
             origin, oline, tag = None, 0, None
+        if tag and tag.startswith(('spec:', 'shim:')) and gen_lines is not None:
+            # a lemma / ghost function of a spec file: name it by its enclosing `fn`
+            j = min(i, len(gen_lines) - 1)
+            while j >= 0:
+                mm = re.search(r'\bfn\s+([A-Za-z_0-9]+)', gen_lines[j])
+                if mm and linemap[j][2] == tag:
+                    tag = mm.group(1)
+                    break
+                j -= 1
         if origin is None:
             # spliced line inside an item: walk to the nearest original line above
             j = i
@@ -207,7 +216,8 @@ def run_unit(unit, prop, repo, scratch, tier, keep):
     if res['resource']:
         r['status'] = 'undecided'
         r['undecided'] += ['resource limit: ' + e for e in res['resource'][:8]]
-    obs = [attribute(f, linemap, repo) for f in res['failures']]
+    gen_lines = gen.split('\n')
+    obs = [attribute(f, linemap, repo, gen_lines) for f in res['failures']]
     for ob in obs:
         ob['unit'] = unit.name
         ob['id'] = '%s::%s::%s' % (unit.name, ob['function'], ob['kind'])
@@ -232,7 +242,7 @@ def run_unit(unit, prop, repo, scratch, tier, keep):
         r['status'] = 'undecided'
         r['undecided'].append('assume/admit outside shims: %s' % bad)
     # canary (vacuity guard b): only meaningful when the real run is green
-    if r['status'] == 'ok':
+    if r['status'] in ('ok', 'fail') and not r['undecided']:
         cgen, inserts = add_canaries(unit, gen, linemap)
         cpath = os.path.join(d, unit.name + '_canary.rs')
         with open(cpath, 'w') as f:
@@ -415,7 +425,12 @@ def write_evidence(prop, args, units, results, violations, knowns, undecided, se
         failed_fns = set(ob['function'] for ob in r['failures'])
         n_ok = r.get('verified', 0)
         n_err = r.get('errors', 0)
-        obligations += n_ok + n_err
+        # functions whose every failed obligation is a listed known finding are reported
+        # separately (coverage.known_findings), not as obligations claimed to hold
+        known_fns = set(ob['function'] for ob, k in knowns if ob.get('unit') == r['unit'])
+        other_failed = set(ob['function'] for ob in r['failures']) - known_fns
+        n_known = min(n_err, len(known_fns - other_failed))
+        obligations += n_ok + n_err - n_known
         discharged += n_ok
         smt_ms += r.get('smt_ms', 0)
         cmds.append(r.get('checker_cmd', ''))
